@@ -11,6 +11,8 @@ from ..model import calls_in, call_name, kwarg, real_body, u
 from ..nf import NF, Env, Opaque, show, sym
 from .c03 import follow_local, hierarchy_helper, index_reuse_possible
 from .c04 import BIMAP_MUT, HUGR_MUT, LIST_MUT
+from ..paths import summaries
+from ..tmpl import T, tall, tfind, tmatch
 
 BASE = "hugr.hugr.base"
 DERIVED = {"children": "rebuilt by _add_node as the children are copied in order",
@@ -31,48 +33,70 @@ def run(ctx) -> None:
 
 
 def insert_core(ctx, R1="C08.R1", R2="C08.R2", R3="C08.R3", R4="C08.R4") -> None:
+    """stated over the canonical body of Hugr.insert_hugr (locals are template metavariables, helpers are inlined)"""
     prog = ctx.program
     hugr = prog.cls(f"{BASE}.Hugr")
     nd = prog.cls(f"{BASE}.NodeData")
     file = hugr.module.path
-    ih = hugr.methods.get("insert_hugr")
-    if ih is None:
-        ctx.broken("anchor vanished: Hugr.insert_hugr")
+    ih_o, _, _ = ctx.locate(f"{BASE}.Hugr.insert_hugr")
+    ih = ctx.cfn(f"{BASE}.Hugr.insert_hugr")
     src_p, par_p = ih.args.args[1].arg, ih.args.args[2].arg
     loops = [n for n in ast.walk(ih) if isinstance(n, ast.For)]
-    node_loops = [l for l in loops if any(isinstance(x, ast.Subscript) and u(x.value) == "mapping" and isinstance(x.ctx, ast.Store) for x in ast.walk(l))]
+    node_loops = []
+    for l in loops:
+        hits = tfind(l.body, T("L_map[L_n] = E_new"))
+        hits = [(n, e) for n, e in hits if isinstance(l.target, ast.Name) and e["L_n"] == l.target.id or isinstance(l.target, ast.Tuple) and e["L_n"] == u(l.target.elts[0])]
+        if hits:
+            node_loops.append((l, hits[0][1]))
     link_loops = [l for l in loops if calls_in(l, "add_link")]
     if len(node_loops) != 1 or len(link_loops) != 1:
         ctx.broken("Hugr.insert_hugr: node loop / link loop not found")
-    nl, ll = node_loops[0], link_loops[0]
+    (nl, e0), ll = node_loops[0], link_loops[0]
+    mp, nv = e0["L_map"], e0["L_n"]
+    # the source node's data: `src[n]`, or the second loop variable when iterating items
+    dv = f"{src_p}[{nv}]"
+    if isinstance(nl.target, ast.Tuple) and len(nl.target.elts) == 2:
+        dv = u(nl.target.elts[1])
     # ---- R1
     adds = [c for c in calls_in(nl) if call_name(c) in ("add_node", "_add_node")]
     if len(adds) != 1:
         ctx.broken("Hugr.insert_hugr: expected one add_node call in the node loop")
     add = adds[0]
-    # the data variable of the loop
-    dv = None
-    if isinstance(nl.target, ast.Tuple):
-        nv, dv = u(nl.target.elts[0]), u(nl.target.elts[1])
-    else:
-        nv = u(nl.target)
-        for s in nl.body:
-            if isinstance(s, ast.Assign) and isinstance(s.targets[0], ast.Name) and u(s.value) in (f"{src_p}[{nv}]",):
-                dv = s.targets[0].id
-    if dv is None:
-        ctx.broken("Hugr.insert_hugr: node data variable not found")
     want = {"op": (0, f"{dv}.op"), "num_outs": (2, f"{dv}._num_outs"), "metadata": (3, f"{dv}.metadata")}
     for fname, (pos, expr) in want.items():
         a = kwarg(add, fname, pos)
         ctx.check(a is not None and u(a) == expr, R1, f"Hugr.insert_hugr: {fname} transferred", file, add.lineno,
                   f"the copy of a node must be created with {fname}={expr} of the source node", add, expected=expr, found=u(a))
-    pa = kwarg(add, "parent", 1)
-    pexpr = follow_local(nl, pa) if pa is not None else None
-    ok = isinstance(pexpr, ast.IfExp) and u(pexpr.body) == f"mapping[{dv}.parent]" and u(pexpr.test) in (f"{dv}.parent", f"{dv}.parent is not None") and u(pexpr.orelse) == par_p
+    # parent: on every path through the loop body the copy hangs under mapping[parent] when the source node has one, else under `parent`
+    ok = True
+    found = []
+    seen = {True: False, False: False}
+    for p in summaries(nl.body):
+        if p.kind == "raise":
+            continue
+        effs = p.find_effect(f"{mp}[{nv}] = self.add_node(E_op, E_parent, E_outs, E_meta)") or p.find_effect(f"{mp}[{nv}] = self._add_node(E_op, E_parent, E_outs, E_meta)")
+        if len(effs) != 1:
+            ok = False
+            found.append("no single add_node on: " + p.describe())
+            continue
+        par = effs[0][2]["E_parent"]
+        t = [k for t_, k in p.tests if u(t_) in (f"{dv}.parent", f"{dv}.parent is not None")]
+        if t and t[0]:
+            good = par == f"{mp}[{dv}.parent]"
+        elif t:
+            good = par == par_p
+        else:
+            good = par in (f"{mp}[{dv}.parent] if {dv}.parent else {par_p}", f"{mp}[{dv}.parent] if {dv}.parent is not None else {par_p}")
+            seen[True] = seen[False] = good
+        if t:
+            seen[t[0]] = seen[t[0]] or good
+        found.append(("has parent: " if t and t[0] else "root: ") + par)
+        ok = ok and good
+    ok = ok and seen[True] and seen[False]
     ctx.check(ok, R1, "Hugr.insert_hugr: parent mapped", file, add.lineno,
               "a copied node hangs under the image of its parent; the image of the source root hangs under the requested parent", add,
-              expected=f"mapping[{dv}.parent] if {dv}.parent else {par_p}", found=u(pexpr))
-    st = [x for x in ast.walk(nl) if isinstance(x, ast.Subscript) and u(x.value) == "mapping" and isinstance(x.ctx, ast.Store)]
+              expected=f"{mp}[{dv}.parent] if {dv}.parent else {par_p}", found="; ".join(found)[:300])
+    st = [x for x in ast.walk(nl) if isinstance(x, ast.Subscript) and u(x.value) == mp and isinstance(x.ctx, ast.Store)]
     ctx.check(len(st) == 1 and u(st[0].slice) == nv, R1, "Hugr.insert_hugr: mapping complete", file, nl.lineno,
               "every node of the source must be recorded in the returned mapping under its own handle", nl)
     covered = {"op", "_num_outs", "metadata"} | set(DERIVED)
@@ -83,31 +107,39 @@ def insert_core(ctx, R1="C08.R1", R2="C08.R2", R3="C08.R3", R4="C08.R4") -> None
     no_filter = not any(isinstance(x, (ast.Continue, ast.Break)) for x in ast.walk(nl)) and not any(isinstance(x, ast.If) for x in nl.body)
     ctx.check(no_filter, R1, "Hugr.insert_hugr: no node skipped", file, nl.lineno, "the copy loop must not skip nodes", nl)
     rets = [r for r in ast.walk(ih) if isinstance(r, ast.Return)]
-    ctx.check(len(rets) == 1 and u(rets[0].value) == "mapping", R1, "Hugr.insert_hugr: returns the mapping", file, ih.lineno, "", ih)
+    ctx.check(len(rets) == 1 and u(rets[0].value) == mp, R1, "Hugr.insert_hugr: returns the mapping", file, ih_o.lineno, "", ih_o)
     # add_node defaults a missing parent to the root of the target
-    an = hugr.methods.get("add_node")
-    ctx.check(an is not None and "parent = parent or self.root" in u(an), R1, "Hugr.add_node: default parent", file, an.lineno if an else 1,
-              "without a requested parent the inserted root hangs under the target's root", an)
+    an_o, _, _ = ctx.locate(f"{BASE}.Hugr.add_node")
+    an = ctx.cfn(f"{BASE}.Hugr.add_node")
+    e = tall(an.body, ["L_p = L_p or self.root", "self._add_node(L_op, L_p, ANY_, ANY_)"]) or tall(an.body, ["self._add_node(L_op, L_p or self.root, ANY_, ANY_)"])
+    ctx.check(e is not None and e["L_p"] == an.args.args[2].arg, R1, "Hugr.add_node: default parent", file, an_o.lineno,
+              "without a requested parent the inserted root hangs under the target's root", an_o)
     # ---- R2
     it = u(ll.iter)
     ctx.check(it in (f"{src_p}._links.items()", f"{src_p}.links()"), R2, "Hugr.insert_hugr: all links", file, ll.lineno,
               "the link loop must range over every link of the source (sub-offset order gives multiplicity and order on multi-ports)", ll, found=it)
     ctx.check(not any(isinstance(x, (ast.If, ast.Continue, ast.Break)) for x in ast.walk(ll)), R2, "Hugr.insert_hugr: no link skipped", file, ll.lineno, "", ll)
-    al = calls_in(ll, "add_link")[0]
     sv, tv = (u(ll.target.elts[0]), u(ll.target.elts[1])) if isinstance(ll.target, ast.Tuple) else ("?", "?")
     via_sub = it.endswith("_links.items()")
     s_port = f"{sv}.port" if via_sub else sv
     t_port = f"{tv}.port" if via_sub else tv
-    want_args = [f"mapping[{s_port}.node].out({s_port}.offset)", f"mapping[{t_port}.node].inp({t_port}.offset)"]
-    got_args = [u(a) for a in al.args]
-    ctx.check(got_args == want_args, R2, "Hugr.insert_hugr: endpoints", file, al.lineno,
+    want_args = [f"{mp}[{s_port}.node].out({s_port}.offset)", f"{mp}[{t_port}.node].inp({t_port}.offset)"]
+    lps = [p for p in summaries(ll.body)]
+    got_args = []
+    ok = bool(lps)
+    for p in lps:
+        effs = p.find_effect("self.add_link(E_a, E_b)")
+        ok = ok and len(effs) == 1 and [effs[0][2]["E_a"], effs[0][2]["E_b"]] == want_args
+        got_args = [effs[0][2]["E_a"], effs[0][2]["E_b"]] if effs else []
+    al = calls_in(ll, "add_link")[0]
+    ctx.check(ok, R2, "Hugr.insert_hugr: endpoints", file, al.lineno,
               "each link is re-added from the image of its source node's out-port to the image of its target node's in-port with the same offsets "
               "(including -1 for order links)", al, expected=", ".join(want_args), found=", ".join(got_args))
     order = ih.body.index(nl) < ih.body.index(ll) if nl in ih.body and ll in ih.body else True
     ctx.check(order, R2, "Hugr.insert_hugr: links after nodes", file, ll.lineno, "links can only be mapped once all nodes are", ll)
     # ---- R3
     bad = []
-    derived = {src_p, dv, nv}
+    derived = {src_p, nv, sv, tv} | ({dv} if "[" not in dv else set())
     for n in ast.walk(ih):
         if isinstance(n, (ast.Assign, ast.AugAssign)):
             tgs = n.targets if isinstance(n, ast.Assign) else [n.target]
@@ -124,11 +156,11 @@ def insert_core(ctx, R1="C08.R1", R2="C08.R2", R3="C08.R3", R4="C08.R4") -> None
                 root = root.value if not isinstance(root, ast.Call) else root.func
             if isinstance(root, ast.Name) and root.id in derived and n.func.attr not in ("items",):
                 bad.append(n)
-    ctx.check(not bad, R3, "Hugr.insert_hugr: source untouched", file, (bad[0].lineno if bad else ih.lineno),
-              f"insert_hugr modifies the inserted HUGR (`{u(bad[0])[:80] if bad else ''}`): B itself must not be modified", bad[0] if bad else ih)
+    ctx.check(not bad, R3, "Hugr.insert_hugr: source untouched", file, (bad[0].lineno if bad else ih_o.lineno),
+              f"insert_hugr modifies the inserted HUGR (`{u(bad[0])[:80] if bad else ''}`): B itself must not be modified", bad[0] if bad else ih_o)
     # ---- R4
     reuse = index_reuse_possible(hugr)
-    needs = any(isinstance(x, ast.Subscript) and u(x.value) == "mapping" and isinstance(x.ctx, ast.Load) and "parent" in u(x.slice) for x in ast.walk(nl))
+    needs = any(isinstance(x, ast.Subscript) and u(x.value) == mp and isinstance(x.ctx, ast.Load) and "parent" in u(x.slice) for x in ast.walk(nl))
     h2 = hierarchy_helper(hugr, follow_local(ih, nl.iter))
     if reuse is None or not needs:
         ctx.ok(R4, "Hugr.insert_hugr: visiting order", "no dependence on parent-first order")
@@ -141,64 +173,75 @@ def insert_core(ctx, R1="C08.R1", R2="C08.R2", R3="C08.R3", R4="C08.R4") -> None
 
 def insert_wrappers(ctx, R5="C08.R5") -> None:
     prog = ctx.program
-    hugr = prog.cls(f"{BASE}.Hugr")
-    # ---- R5
+    # ---- R5  (path summaries: locals and temporaries are substituted away)
     df = prog.cls("hugr.build.dfg.DfBase")
     dfile = df.module.path
-    impl = df.methods.get("_insert_nested_impl")
-    if impl is None:
-        ctx.broken("anchor vanished: DfBase._insert_nested_impl")
-    nf = NF(prog)
-    try:
-        t, env = nf.method_nf(df, "_insert_nested_impl")
-    except Opaque:
-        t = None
-    src = u(impl)
+    q = "hugr.build.dfg.DfBase._insert_nested_impl"
+    impl, _, _ = ctx.locate(q)
     b = impl.args.args[1].arg
-    ok = f"self.hugr.insert_hugr({b}.hugr, self.parent_node)" in src and f"self._wire_up(mapping[{b}.parent_node], args)" in src
-    rets = [r for r in ast.walk(impl) if isinstance(r, ast.Return)]
-    ok = ok and len(rets) == 1 and u(rets[0].value) == f"mapping[{b}.parent_node]"
+    va = impl.args.vararg.arg if impl.args.vararg else "args"
+    ps = [p for p in ctx.paths(q) if p.kind != "raise"]
+    ins = f"self.hugr.insert_hugr({b}.hugr, self.parent_node)"
+    ok = bool(ps)
+    for p in ps:
+        i1 = p.find_effect(ins)
+        w = p.find_effect(f"self._wire_up({ins}[{b}.parent_node], {va})")
+        ok = ok and len(i1) >= 1 and len(w) == 1 and p.kind == "return" and p.value_text() == f"{ins}[{b}.parent_node]"
+        # the hugr is inserted once: the call text recurs only through substitution of the mapping
+        ok = ok and sum(1 for e in p.effects if isinstance(e, ast.Expr) and u(e.value) == ins) == 1
     ctx.check(ok, R5, "DfBase._insert_nested_impl", dfile, impl.lineno,
-              "the inserted builder's HUGR goes under this builder's parent node, the given wires are connected to the image of its root, which is returned", impl)
+              "the inserted builder's HUGR goes under this builder's parent node, the given wires are connected to the image of its root, which is returned", impl,
+              found="; ".join(p.describe() + " :: " + " | ".join(p.effect_texts()) for p in ps)[:400])
+    nf = NF(prog)
     table = {
-        "insert_nested": ("dfg", "(*args,)"),
-        "insert_cfg": ("cfg", "(*args,)"),
-        "insert_conditional": ("cond", "(cond_wire, *args)"),
-        "insert_tail_loop": ("tl", "(*just_inputs, *rest)"),
+        "insert_nested": "(*args,)",
+        "insert_cfg": "(*args,)",
+        "insert_conditional": "(cond_wire, *args)",
+        "insert_tail_loop": "(*just_inputs, *rest)",
     }
-    for name, (first, rest) in table.items():
-        m = df.methods.get(name)
-        if m is None:
-            ctx.broken(f"anchor vanished: DfBase.{name}")
-        env = Env(df.module, df, {a.arg: sym(a.arg) for a in m.args.args}, {})
-        for a in ([m.args.vararg] if m.args.vararg else []):
-            env.vars[a.arg] = sym(a.arg)
-        rb = real_body(m)
-        ok = len(rb) == 1 and isinstance(rb[0], ast.Return) and isinstance(rb[0].value, ast.Call) and u(rb[0].value.func) == "self._insert_nested_impl"
-        if ok:
-            call = rb[0].value
-            got_first = u(call.args[0])
-            got_rest = nf.ev(ast.Tuple(elts=call.args[1:], ctx=ast.Load()), env)
-            want_rest = nf.ev(ast.parse(rest, mode="eval").body, env)
-            ok = got_first == m.args.args[1].arg and _flatten(got_rest) == _flatten(want_rest)
-        ctx.check(ok, R5, f"DfBase.{name}", dfile, m.lineno,
-                  f"{name} must call _insert_nested_impl({m.args.args[1].arg}, {rest[1:-1].rstrip(',')}) -- the same wire order its add_* twin uses", m,
-                  found=u(rb[0]) if rb else "")
-    # twins: add_conditional wires (cond_wire, *args); add_tail_loop wires (*just_inputs, *rest)
-    for name, want in (("add_conditional", "(cond_wire, *args)"), ("add_tail_loop", "(*just_inputs, *rest)")):
-        m = df.methods.get(name)
-        wu = [c for c in calls_in(m, "_wire_up")]
-        env = Env(df.module, df, {a.arg: sym(a.arg) for a in m.args.args}, {})
+    for name, rest in table.items():
+        m, _, _ = ctx.locate(f"hugr.build.dfg.DfBase.{name}")
+        params = [a.arg for a in m.args.args]
+        env = Env(df.module, df, {a: sym(a) for a in params}, {})
         if m.args.vararg:
             env.vars[m.args.vararg.arg] = sym(m.args.vararg.arg)
-        for s in real_body(m):
-            if isinstance(s, ast.Assign) and isinstance(s.targets[0], ast.Name) and s.targets[0].id == "args":
-                env.vars["args"] = nf.ev(s.value, env)
-        ok = len(wu) == 1 and _flatten(nf.ev(wu[0].args[1], env)) == _flatten(nf.ev(ast.parse(want, mode="eval").body, Env(df.module, df, {a.arg: sym(a.arg) for a in m.args.args} | ({m.args.vararg.arg: sym(m.args.vararg.arg)} if m.args.vararg else {}), {})))
+        ps = ctx.paths(f"hugr.build.dfg.DfBase.{name}")
+        ok = bool(ps)
+        found = ""
+        for p in ps:
+            if p.kind == "raise":
+                continue
+            v = p.value
+            found = p.value_text()
+            good = p.kind == "return" and isinstance(v, ast.Call) and u(v.func) == "self._insert_nested_impl" and len(v.args) >= 1 and not v.keywords
+            if good:
+                got_first = u(v.args[0])
+                try:
+                    got_rest = nf.ev(ast.Tuple(elts=v.args[1:], ctx=ast.Load()), env)
+                    want_rest = nf.ev(ast.parse(rest, mode="eval").body, env)
+                    good = got_first == params[1] and _flatten(got_rest) == _flatten(want_rest)
+                except Opaque:
+                    good = False
+            ok = ok and good
+        ctx.check(ok, R5, f"DfBase.{name}", dfile, m.lineno,
+                  f"{name} must call _insert_nested_impl({params[1]}, {rest[1:-1].rstrip(',')}) -- the same wire order its add_* twin uses", m, found=found)
+    # twins: add_conditional wires (cond_wire, *args); add_tail_loop wires (*just_inputs, *rest)
+    for name, want in (("add_conditional", "(cond_wire, *args)"), ("add_tail_loop", "(*just_inputs, *rest)")):
+        m, _, _ = ctx.locate(f"hugr.build.dfg.DfBase.{name}")
+        env0 = Env(df.module, df, {a.arg: sym(a.arg) for a in m.args.args} | ({m.args.vararg.arg: sym(m.args.vararg.arg)} if m.args.vararg else {}), {})
+        ps = [p for p in ctx.paths(f"hugr.build.dfg.DfBase.{name}") if p.kind != "raise"]
+        ok = bool(ps)
+        for p in ps:
+            wu = p.find_effect("self._wire_up(E_n, E_w)")
+            good = len(wu) == 1
+            if good:
+                call = wu[0][1].value if isinstance(wu[0][1], ast.Expr) else wu[0][1]
+                try:
+                    good = _flatten(nf.ev(call.args[1], env0)) == _flatten(nf.ev(ast.parse(want, mode="eval").body, env0))
+                except Opaque:
+                    good = False
+            ok = ok and good
         ctx.check(ok, R5, f"DfBase.{name}: wire order", dfile, m.lineno, f"{name} wires {want}", m)
-
-
-
 
 
 def _flatten(t):
